@@ -123,6 +123,6 @@ package literals
 //@ func (*obfRand).pickObfuscator
 //@   property C05 C09
 //@   fact @init-Obfuscators: len(Obfuscators) > 0 && len(CheapObfuscators) > 0
+//@   requires or != nil
 //@   may_panic when size < 8 || size > 2048
-//@   skip safety
 //@ end
